@@ -836,6 +836,15 @@ def _known_nonneg(p):
 
 
 def _numop(op, a, b):
+    r = _numop0(op, a, b)
+    if isinstance(r, SNum) and r.is_int and r.p.is_const():
+        c = r.p.cval()
+        if c.denominator == 1:
+            return int(c)           # integer constants flow on as python ints (shapes, indices, slices)
+    return r
+
+
+def _numop0(op, a, b):
     if op == 'add':
         return SNum(a.p + b.p, a.is_int and b.is_int)
     if op == 'sub':
@@ -934,13 +943,14 @@ def sx_sqrt(x):
 def _round_atom(kind, x):
     x = as_num(x)
     if x.is_int:
-        return x
+        c = x.const()
+        return x if c is None else int(c)
     c = x.const()
     if c is not None:
         r = {'floor': math.floor, 'ceil': math.ceil, 'fix': math.trunc,
              'round': lambda q: int(rnp.round(float(q))) if q.denominator != 2 else (
                  (q.numerator // 2) if (q.numerator // 2) % 2 == 0 else (q.numerator // 2 + 1))}[kind](c)
-        return SNum(Poly.const(r), True)
+        return int(r)
     p = x.p
     v = mkvar((kind, p.key()), None, 'I', kind)
     if not v.defs:
